@@ -5,7 +5,7 @@
    of every model trace" (no spurious request during recovery, stash drained, recovery ends) is `_partial`: validated by
    the correspondence stream with the same predicate. *)
 From Coq Require Import ZArith List Bool.
-From QF Require Import Base.Bytes Session.Types Session.Model Session.Spec Session.LocalProofs Session.C01Proofs Session.TraceProofs Session.RecoveryProofs.
+From QF Require Import Base.Bytes Session.Types Session.Model Session.Spec Session.LocalProofs Session.C01Proofs Session.TraceProofs Session.RecoveryProofs Session.ReactionProofs.
 Import ListNotations.
 Open Scope Z_scope.
 
@@ -46,3 +46,12 @@ Proof. exact c01_handover_at_expected. Qed.
 Theorem c04_timers_never_disturb_recovery_on_any_trace : forall c es,
   free_of [406] (c04_check c (combine es (map obs_of (run_trace es (init_sess c))))) = true.
 Proof. exact c04_timers_never_disturb_recovery. Qed.
+
+(* TRACE LEVEL.  Clause 401 of c04_check never fails on a model trace: whenever a sequence-gated message that passes the
+   header checks arrives above the expected number in normal operation (nothing queued, nothing buffered), exactly one
+   ResendRequest [expected, end marker] is sent (end marker: expected+chunk-1 when a chunk smaller than the gap is
+   configured, else 0 / 999999 by BeginString), the message is kept under its number, the range end is its number - 1,
+   and the expected number is unchanged. *)
+Theorem c04_gap_clause_holds_on_every_trace : forall c es,
+  free_of [401] (c04_check c (combine es (map obs_of (run_trace es (init_sess c))))) = true.
+Proof. exact c04_gap_never_fails. Qed.
